@@ -65,6 +65,25 @@ func isErrValue(e ssa.Value, at *ssa.BasicBlock, depth int) bool {
 				_ = g
 				return true // package-level error value (ErrXxx)
 			}
+			// result spilled because of a defer: `*r = v; rundefers; return *r`
+			if a, ok := x.X.(*ssa.Alloc); ok {
+				var stores, none []*ssa.Store
+				for _, ref := range *a.Referrers() {
+					if st, ok := ref.(*ssa.Store); ok && st.Addr == a {
+						stores = append(stores, st)
+					}
+				}
+				reach, _ := reachingStores(stores, none, x)
+				if len(reach) == 0 {
+					return false
+				}
+				for _, st := range reach {
+					if !isErrValue(st.Val, st.Block(), depth+1) {
+						return false
+					}
+				}
+				return true
+			}
 		}
 	case *ssa.Call:
 		pkg, name := calleeName(x.Common())
